@@ -1,9 +1,15 @@
 #!/bin/sh
-# re-run every seeded change against the check of the property it breaks (scratch copies
-# of /repo under /dev/shm via PVC_REPO_SRC; /repo itself is not touched)
-out=/verif/seeded/RESULTS.txt; : > $out
-for d in /verif/seeded/C*/ /verif/seeded/S*/ /verif/seeded/T*/ /verif/seeded/U*/ /verif/seeded/V*/; do
-  id=$(basename $d)
+# re-run seeded changes against the check of the property each breaks (scratch copies of
+# /repo under /dev/shm via PVC_REPO_SRC; /repo itself is not touched)
+#   tools/run_seeds.sh            every seed, RESULTS.txt rewritten
+#   tools/run_seeds.sh V1 W3 ...  only those, their sections appended to RESULTS.txt
+out=/verif/seeded/RESULTS.txt
+if [ $# -eq 0 ]; then
+  : > $out
+  set -- $(cd /verif/seeded && ls -d C[0-9]* S[0-9]* T[0-9]* U[0-9]* V[0-9]* W[0-9]* 2>/dev/null)
+fi
+for id in "$@"; do
+  d=/verif/seeded/$id
   prop=$(/venv/bin/python -c "import json,sys; print(json.load(open('$d/meta.json'))['property'])")
   echo "##### seed $id (property $prop)" >> $out
   SEED_TIMEOUT=1500 /verif/tools/try_seed.sh $d $prop 2>&1 | grep -v "^  obligation" | tail -5 | cut -c1-400 >> $out
